@@ -129,6 +129,14 @@ func (r *FederationRequest) HTTPRequest() (*http.Request, error) {
 		return nil, err
 	}
 
+	// ... and that the destination is the host of the URL, all of it: a
+	// "user@host" destination would otherwise be sent to "host".
+	if httpReq.URL.User != nil || httpReq.URL.Host != string(r.fields.Destination) {
+		return nil, fmt.Errorf(
+			"gomatrixserverlib: Request destination %q is not a server name", r.fields.Destination,
+		)
+	}
+
 	// Sanity check that the request fields will round-trip properly.
 	if httpReq.URL.RequestURI() != r.fields.RequestURI {
 		return nil, fmt.Errorf(
